@@ -15,7 +15,8 @@ Synthetic optimisation problems for the C15 / C16 checks (no Modelica front-end)
   nominal      {canonical: float}
   modes        {canonical: 0|1|2}     interpolation method per variable
   history      [per member {canonical: {times, values}}]
-  delays       [{expr: {const, terms: {var: coef}}, out: name, tau: number | {"param": name, "scale": c}}]
+  delays       [{expr: {const, terms: {var: coef}}, out: name,
+                 tau: number | {"const": a, "par": [name, scale], "cin": [name, scale]}}]
   dyn          {"a": float}           x' = -a*x + sum(u) + sum(c)     (kept linear)
   path_vars    [name]                 extra path variables (size 1)
 
@@ -200,10 +201,12 @@ def problem_class():
                 for v, coef in d["expr"]["terms"].items():
                     e = e + float(coef) * self._sym[v]
                 tau = d["tau"]
-                if isinstance(tau, dict):
-                    dur = float(tau.get("scale", 1.0)) * self._sym[tau["param"]] + float(tau.get("add", 0.0))
-                    if "cin" in tau:
-                        dur = dur + float(tau.get("cin_scale", 1.0)) * self._sym[tau["cin"]]
+                if isinstance(tau, dict):  # {"const": a, "par": [name, s], "cin": [name, s]}
+                    dur = ca.MX(float(tau.get("const", 0.0)))
+                    if tau.get("par"):
+                        dur = dur + float(tau["par"][1]) * self._sym[tau["par"][0]]
+                    if tau.get("cin"):
+                        dur = dur + float(tau["cin"][1]) * self._sym[tau["cin"][0]]
                 else:
                     dur = float(tau)
                 out.append((e, d["out"], dur))
